@@ -153,6 +153,13 @@ def seq_ops(job):
     ops = [("bytes", {"b": ""}), ("bytes", {"b": "0000ff"}), ("bytes", {"b": filler(seed, "c07-seq", 21).hex()}), ("bytes", {"b": "00" * 5}),
            ("str", {"s": bs[2].hex()}), ("str", {"s": (bs[2][:-1] + b"1").hex()}), ("str", {"s": b"".hex()}), ("str", {"s": b"11".hex()}),
            ("str", {"s": b"0OIl".hex()}), ("str", {"s": (b" " + bs[1]).hex()}), ("str", {"s": bs[5].hex()})]
+    if job.get("part") == "seq":
+        # two different payloads with the SAME 4-byte checksum (deterministic birthday search): a memo keyed by the checksum
+        # cannot tell them apart
+        from vf.classes import truncated_digest_collision
+        pre = filler(seed, "c07-coll", 17)
+        x, y = truncated_digest_collision(lambda i: pre + i.to_bytes(4, "big"))
+        ops += [("bytes", {"b": x.hex()}), ("bytes", {"b": y.hex()}), ("str", {"s": R.check_encode(x).hex()}), ("str", {"s": R.check_encode(y).hex()})]
     return ops
 
 
